@@ -250,6 +250,36 @@ def symbolic_param_configs(tier, strategies=("LinearFixedRFA", "ExpFixedRFA", "E
     return out
 
 
+def large_configs(tier, strategies=WINDOW, adaptive=True):
+    """larger shapes that stay cheap: the fixed strategies have no value-dependent branch (one path whatever m, n);
+    the adaptive ones get few intervals with a wide window"""
+    out = []
+    for s in strategies:
+        is_adaptive = "Adaptive" in s
+        if is_adaptive and not adaptive:
+            continue
+        if s in ("PiecewiseConstantRFA", "CubicSplineRFA"):
+            shapes = [(8, 12)]
+        elif is_adaptive:
+            shapes = [] if tier == "quick" else [(3, 8), (3, 12), (4, 7)]
+        else:
+            shapes = [(7, 8), (6, 13)] if tier == "quick" else [(7, 8), (6, 13), (9, 16), (12, 24)]
+        for (m, n) in shapes:
+            grid = [str(g) for g in gap_grids(m, tier, limit=1)[2]]
+            if s in ("PiecewiseConstantRFA", "CubicSplineRFA"):
+                ps = [{}]
+            elif s.startswith("Linear"):
+                ps = [{"alpha": "1"}, {"alpha": "3/4"}, {"a": n - 1}] + ([{"alpha": "1", "adaptive_smooth": "2"}] if is_adaptive and m == 3 and n == 8 else [])
+            else:
+                ps = [{"alpha": "1", "beta": "1/2", "exp": "3"}, {"alpha": "3/4", "beta": "1/3", "exp": "1/2"}, {"a": n - 1, "beta": "1", "exp": "2"},
+                      {"alpha": "1", "beta": "0", "exp": "3/2"}]
+            if is_adaptive:
+                ps = ps[:2] if tier == "quick" else ps
+            for p in ps:
+                out.append({"strategy": s, "m": m, "n": n, "grid": grid, "p": p})
+    return out
+
+
 def shape_configs(tier, strategies, sym_x_max_m, max_m, ns, adaptive_max_m=None):
     """(strategy, m, n, grid|None, params) combinations"""
     out = []
